@@ -11,5 +11,10 @@ open StarsimModel.C01
 #print axioms C01_seed_formula_is_model
 #print axioms C01_seed_formula
 #print axioms C01_seed_changes_all
+#print axioms C01_seed_changes_every_stream_partial
+#print axioms C01_self_seeded_ignores_sim_seed
+#print axioms C01_seed_changes_every_stream_counterexample
+#print axioms C01_dists_exist_before_seeding
+#print axioms C01_only_dists_own_generators
 #print axioms C01_seed_reinit_partial
 #print axioms C01_seed_reinit_counterexample
